@@ -3,10 +3,6 @@
 package knxnet
 
 import (
-	"errors"
-	"net"
-	"time"
-
 	"github.com/vapourismo/knx-go/knx/cemi"
 )
 
@@ -158,46 +154,12 @@ func c15CheckCemi(got, want cemi.Message, infoLen, dataLen int) {
 	}
 }
 
-// c15Conn is a net.Conn that records what is written.
-type c15Conn struct {
-	writes   int
-	last     []byte
-	closed   int
-	local    net.Addr
-	onWrite  func([]byte) // environment hook of the black-box tunnel harnesses (package knx)
-	failFrom int          // fail every write from this one on (0: never; n: the n-th write and later)
-}
-
-func (c *c15Conn) Read(b []byte) (int, error) { return 0, nil }
-func (c *c15Conn) Write(b []byte) (int, error) {
-	if c.closed > 0 || (c.failFrom > 0 && c.writes+1 >= c.failFrom) {
-		return 0, errC15Write // a closed connection refuses writes, as the kernel's does
-	}
-	c.writes++
-	c.last = append([]byte(nil), b...)
-	if c.onWrite != nil {
-		c.onWrite(c.last)
-	}
-	return len(b), nil
-}
-
-var errC15Write = errors.New("verif: write failed")
-func (c *c15Conn) Close() error {
-	c.closed++
-	return nil
-}
-func (c *c15Conn) LocalAddr() net.Addr                { return c.local }
-func (c *c15Conn) RemoteAddr() net.Addr               { return nil }
-func (c *c15Conn) SetDeadline(t time.Time) error      { return nil }
-func (c *c15Conn) SetReadDeadline(t time.Time) error  { return nil }
-func (c *c15Conn) SetWriteDeadline(t time.Time) error { return nil }
-
 // HarnessC15Send: the datagram handed to the network by TunnelSocket.Send is one write of
 // exactly header-total-length bytes.
 func HarnessC15Send(a []int) {
 	v := c15Value(a)
 	conn := &c15Conn{}
-	sock := &TunnelSocket{conn: conn}
+	sock := &TunnelSocket{conn, nil}
 	err := sock.Send(v)
 	verifAssert("C15.send.ok", err == nil)
 	verifAssert("C15.send.one_write", conn.writes == 1)
